@@ -99,7 +99,8 @@ PROPS = {
         "jobs": [dict(FSM_JOB),
                  {"pkg": "motion", "test": "TestVerif_C04Window", "shards": (8, 16), "timeout": (300, 1800), "require": ["window_runs", "motion_frames_outside_window", "frames_at_exact_boundary", "windows_spanning_midnight", "recordings"]},
                  {"pkg": "recorder-main", "test": "TestVerif_C04Pipe", "shards": (6, 6), "timeout": (300, 900), "require": ["pipeline_gate_runs", "pipeline_motion_files"]},
-                 {"pkg": "recorder-main", "test": "TestVerif_C04PipeRetry", "shards": (8, 16), "timeout": (300, 900), "require": ["pipeline_retry_runs"]}],
+                 {"pkg": "recorder-main", "test": "TestVerif_C04PipeRetry", "shards": (8, 16), "timeout": (300, 900), "require": ["pipeline_retry_runs"]},
+                 {"pkg": "throttle", "test": "TestVerif_ThrottleComposition", "shards": (16, 16), "timeout": (300, 2400), "require": ["composition_runs", "base_starts_checked", "mid_trigger_restarts", "base_start_failures", "runs_with_disk_low_windows"]}],
     },
     "C05": {
         "title": "Throttling bounds recorded frames by the token bucket in every time interval",
@@ -111,7 +112,8 @@ PROPS = {
         "level_note": "main.go's wiring of the throttle (real clock) is checked one-sidedly by the pipeline job.",
         "technique": "offline interval-bound checker on a timestamped event log (injected clock)",
         "jobs": [dict(TH_JOB),
-                 {"pkg": "recorder-main", "test": "TestVerif_C05Pipe", "shards": (8, 16), "timeout": (600, 2400), "require": ["pipeline_runs", "frames_recorded_throttled", "throttled_files", "throttle_cut_files"]}],
+                 {"pkg": "recorder-main", "test": "TestVerif_C05Pipe", "shards": (8, 16), "timeout": (600, 2400), "require": ["pipeline_runs", "frames_recorded_throttled", "throttled_files", "throttle_cut_files"]},
+                 {"pkg": "throttle", "test": "TestVerif_ThrottleComposition", "shards": (16, 16), "timeout": (300, 2400), "require": ["composition_runs", "base_starts_checked", "mid_trigger_restarts", "base_start_failures", "runs_with_disk_low_windows"]}],
     },
     "C06": {
         "title": "Throttle: transparent within budget, clean cuts, restarts only with a full clip",
@@ -127,7 +129,8 @@ PROPS = {
         "technique": "online per-operation monitor + pairing automaton on the wrapped recorder",
         "jobs": [dict(TH_JOB),
                  {"pkg": "recorder-main", "test": "TestVerif_Daemon", "daemon": True, "shards": (1, 1), "timeout": (300, 600)},
-                 {"pkg": "recorder-main", "test": "TestVerif_C05Pipe", "shards": (8, 16), "timeout": (600, 2400), "require": ["pipeline_runs", "throttled_files", "throttle_cut_files"]}],
+                 {"pkg": "recorder-main", "test": "TestVerif_C05Pipe", "shards": (8, 16), "timeout": (600, 2400), "require": ["pipeline_runs", "throttled_files", "throttle_cut_files"]},
+                 {"pkg": "throttle", "test": "TestVerif_ThrottleComposition", "shards": (16, 16), "timeout": (300, 2400), "require": ["composition_runs", "base_starts_checked", "mid_trigger_restarts", "base_start_failures", "runs_with_disk_low_windows"]}],
     },
     "C07": {
         "title": "Motion is reported exactly per the configured thresholds (fixed threshold)",
@@ -214,7 +217,8 @@ PROPS = {
         "level_note": "Enumeration is complete for sequences up to the stated length on the listed configurations; longer histories and fault combinations are sampled. The real CPTVFileRecorder under real I/O faults is exercised by the pipeline job.",
         "technique": "protocol-automaton monitors on injected sinks with exhaustive single-fault placement",
         "jobs": [{"pkg": "motion", "test": "TestVerif_C12", "shards": (16, 16), "timeout": (300, 2400), "require": ["single_fault_runs", "recoveries_checked", "random_faults_injected"]},
-                 {"pkg": "recorder-main", "test": "TestVerif_C12Pipe", "shards": (12, 16), "timeout": (300, 1800), "require": ["pipeline_fault_runs", "pipeline_faults_injected"]}],
+                 {"pkg": "recorder-main", "test": "TestVerif_C12Pipe", "shards": (12, 16), "timeout": (300, 1800), "require": ["pipeline_fault_runs", "pipeline_faults_injected"]},
+                 {"pkg": "throttle", "test": "TestVerif_ThrottleComposition", "shards": (16, 16), "timeout": (300, 2400), "require": ["composition_runs", "base_starts_checked", "mid_trigger_restarts", "base_start_failures", "runs_with_disk_low_windows"]}],
     },
     "C13": {
         "title": "Bad frames are rejected, never recorded or buffered, end the recording cleanly",
@@ -267,7 +271,8 @@ PROPS = {
         "level_text": "In-package invariant monitor evaluated after every Detect, plus comparison of the snapshot handed to the motion sink.",
         "level_note": "The 'recompute after more than preview*fps background updates' schedule is taken from the detector's design; the property fixes only the value.",
         "technique": "invariant monitor on hooked (in-package) state",
-        "jobs": [{"pkg": "motion", "test": "TestVerif_C15", "shards": (16, 16), "timeout": (300, 2400), "require": ["frames", "threshold_recomputations", "reseeds", "recording_starts_checked", "ffc_frames"]}],
+        "jobs": [{"pkg": "motion", "test": "TestVerif_C15", "shards": (16, 16), "timeout": (300, 2400), "require": ["frames", "threshold_recomputations", "reseeds", "recording_starts_checked", "ffc_frames"]},
+                 {"pkg": "throttle", "test": "TestVerif_ThrottleComposition", "shards": (16, 16), "timeout": (300, 2400), "require": ["composition_runs", "base_starts_checked", "mid_trigger_restarts", "base_start_failures", "runs_with_disk_low_windows"]}],
     },
     "C16": {
         "title": "Snapshots taken concurrently with processing are whole frames; no data races",
